@@ -313,6 +313,8 @@ def op_write_read(ctx, st, op, prop, info):
         # history then continues on the object that was written.)
         if in_domain:
             st.objs[which] = R
+        elif which == "az" and getattr(st, "member_before_write", None):
+            st.member = dict(st.member_before_write)        # the written object stays, and so does its out-of-step member
         if judge and in_domain and not out_of_step:
             if getattr(st, "shadow", None) is None:
                 sh = M.State()
